@@ -386,7 +386,7 @@ def run(tier):
     res.assumptions = ["z3 is the reference decision procedure for the small mixed formulas the harness wrote down itself",
                        "incompleteness is never a violation: unassigned literals and 'true' answers on partial assignments are always accepted"]
     exes = [build.driver("dbg", "net_drv"), build.driver("rel", "net_drv")]
-    total = 4800 if tier == "quick" else 40000
+    total = 4800 if tier == "quick" else 200000
     per = 50 if tier == "quick" else 200
     common.pmap(work, [(exes, s, per, False, PID) for s in range(0, total, per)], res)
     res.gate("learnt clauses observed", res.counters.get("learnt clauses checked for entailment", 0) > 0)
